@@ -81,10 +81,10 @@ Definition c08_rel_dot_eaten (u spec got : text) : bool :=
   && (text_eqb (f_path s) (46 :: 46 :: 47 :: f_path g)
       || (text_eqb (f_path s) [46; 46] && match f_path g with [] => true | _ => false end)).
 
-(* D14: the normal form of a host-less absolute path begins with "//" and is written without guard *)
+(* (code 14, D14 -- the normal form of a host-less path begins with "//" and was written without guard --
+   is no longer attributed: repaired in uriNormalizeSyntaxEngine) *)
 Definition c08_shape (u spec got : text) : N :=
-  if c06_unguarded_dslash spec got then 14
-  else if c08_rel_stale_dot u spec got then 74
+  if c08_rel_stale_dot u spec got then 74
   else if c08_rel_dot_eaten u spec got then 75
   else if c08_rel_cancels u spec got then 71
   else if c08_rel_exposes_empty u spec got then 73
